@@ -663,7 +663,7 @@ func init() {
 				// The Compressed flag of the frame is kept so that re-encoding follows the same compression decision.
 				return m, len(b) - r.Len(), nil
 			},
-			ident: msgIdent, dump: msgDump,
+			ident: msgIdent, dump: msgDump, extra: msgExtra(sr),
 			nodetermFn: func(e []byte) bool { return len(e) > 0 && e[0]&byte(network.Compressed) != 0 },
 			decFailKey: func(v any, e []byte, err error) string {
 				// A compressed frame which a reference LZ4 block decoder turns back into the payload bytes.
@@ -987,12 +987,7 @@ func init() {
 		dec: serDec[state.NotificationEvent](nil), jsonEnc: je, jsonDec: jd})
 	je, jd = jsonOf[state.AppExecResult](nil)
 	addKind(&kind{name: "aer", weight: 4, build: func(t *tape) any { return buildAER(t) },
-		enc: func(v any, w gio.Writer) error {
-			// AppExecResult.EncodeBinary sets a bit in VMState of the value it encodes when invocations are present;
-			// encode a shallow copy so that the drawn value stays what it is.
-			c := *v.(*state.AppExecResult)
-			return serEnc(&c, w)
-		},
+		enc:  serEnc, // the value itself, as Blockchain.storeBlock does before handing it to subscribers
 		dec:  serDec[state.AppExecResult](nil),
 		dump: aerDump, jsonEnc: je, jsonDec: jd})
 	addKind(&kind{name: "invocation", weight: 1, build: func(t *tape) any { return buildInvocation(t) }, enc: serEnc,
